@@ -60,6 +60,8 @@ func (o Op) String() string {
 		return fmt.Sprintf("delete[%d,%d)", o.From, o.To)
 	case "appenddel":
 		return fmt.Sprintf("append[%d..%d]+delete[%d,%d)-at-once", o.Lo, o.Hi, o.From, o.To)
+	case "restartappend":
+		return fmt.Sprintf("stop+start+append[%d..%d]", o.Lo, o.Hi)
 	}
 	return o.K
 }
@@ -273,6 +275,23 @@ func (w *World) Apply(op Op) (err error, pan string) {
 				delete(w.M, h)
 			}
 		}
+	case "restartappend": // clean restart, then the header right above Head (fills a gap if there is one)
+		err, pan = vk.TryErr(func() error {
+			if e := w.Close(); e != nil {
+				return fmt.Errorf("Stop: %w", e)
+			}
+			if e := w.open(); e != nil {
+				return e
+			}
+			if e := w.St.Append(ctx, w.C.Slice(op.Lo, op.Hi)...); e != nil {
+				return fmt.Errorf("Append: %w", e)
+			}
+			for h := op.Lo; h <= op.Hi; h++ {
+				w.M[h] = true
+			}
+			w.ExpectNonEmpty = true
+			return nil
+		})
 	case "restart":
 		err, pan = vk.TryErr(func() error {
 			if e := w.Close(); e != nil {
